@@ -51,21 +51,25 @@ class Pool:
         self.recv = scenes.gen_point_inside(rng, self.sides)
         self.freqs = scenes.FREQS[:self.B]
 
-    def sampling(self):
+    def sampling(self, variant=0):
+        """Outgoing direction set; `variant` 1 is another grid with the SAME number of directions
+        (used by the materials m2, m3)."""
         if self.samp_par is None:
             return scenes.single_dir()
         nt, nph, scale, off = self.samp_par
         s = scenes.hemisphere_sampling(nt, nph, weight_scale=scale)
-        s.azimuth = s.azimuth + off * 0.37
+        s.azimuth = s.azimuth + off * 0.37 + 0.9 * variant
+        if variant:
+            s.colatitude = np.clip(s.colatitude * 0.8 + 0.05, 0.02, np.pi / 2 - 0.02)
         return s
 
-    def sampling_in(self):
+    def sampling_in(self, variant=0):
         if self.samp_in_par is None:
-            return self.sampling()
+            return self.sampling(variant)
         nt, nph, scale, off = self.samp_in_par
         s = scenes.hemisphere_sampling(nt, nph, weight_scale=scale)
-        s.azimuth = s.azimuth + off * 0.41
-        s.colatitude = np.clip(s.colatitude + 0.11, 0.02, np.pi / 2 - 0.02)
+        s.azimuth = s.azimuth + off * 0.41 + 0.7 * variant
+        s.colatitude = np.clip(s.colatitude + 0.11 - 0.05 * variant, 0.02, np.pi / 2 - 0.02)
         return s
 
     def describe(self):
@@ -190,7 +194,8 @@ def apply_op(r, op, pool, tmpdir, inputs_log=None):
     if k == 'S':
         data = pool.mats[op[2]].copy()
         fd = pf.FrequencyData(data, pool.freqs)
-        si, so = pool.sampling_in(), pool.sampling()
+        variant = 1 if op[2] in ('m2', 'm3') else 0
+        si, so = pool.sampling_in(variant), pool.sampling(variant)
         walls = np.array(op[1])
         before = (h_arr(fd.freq), h_arr(si.cartesian), h_arr(so.cartesian), h_arr(walls), h_arr(si.weights))
         r.set_wall_brdf(walls, fd, si, so)
